@@ -3357,19 +3357,15 @@ func (s *swamp) addToExpirationTimeBeacon(treasureInterface treasure.Treasure) {
 func (s *swamp) addToValueBeacon(treasureInterface treasure.Treasure) {
 	// check if the index is already built
 	// if not, then we don't need to add the treasures to the index
-	if !s.valueBeaconASC.IsInitialized() {
+	if !s.valueBeaconASC.IsInitialized() && !s.valueBeaconDESC.IsInitialized() {
 		return
 	}
-	s.valueBeaconASC.Add(treasureInterface)
-	err := s.valueBeaconASC.SortByValueInt64ASC()
-	if err != nil {
-		slog.Error("failed to sort valueIntBeaconASC", "error", err)
-	}
-	s.valueBeaconDESC.Add(treasureInterface)
-	err = s.valueBeaconDESC.SortByValueInt64DESC()
-	if err != nil {
-		slog.Error("failed to sort valueIntBeaconDESC", "error", err)
-	}
+	// The shared value beacon pair does not know which value type built it, and the
+	// int64 sort used here failed for every other type (the new treasure stayed
+	// appended, unsorted). Drop the pair instead: the next value-index read rebuilds
+	// it with the comparator of the type that read asks for.
+	s.valueBeaconASC.Reset()
+	s.valueBeaconDESC.Reset()
 }
 
 // sendEventToHydra sends the event to the ManagerInterface
